@@ -4,7 +4,10 @@ package main
 
 import (
 	"sync"
+
 	"encoding/json"
+	"github.com/markusressel/fan2go/internal"
+	"github.com/prometheus/client_golang/prometheus"
 	"math"
 	"os"
 	"path/filepath"
@@ -34,18 +37,18 @@ type curvesStep struct {
 	V string `json:"v"` // speed, exact hex float
 }
 type curvesNode struct {
-	Kind     string   `json:"kind"` // lin | pid | fn
-	Sensor   int      `json:"sensor"`
-	Min      int      `json:"min"`
-	Max      int      `json:"max"`
-	HasSteps bool     `json:"hasSteps"`
+	Kind     string       `json:"kind"` // lin | pid | fn
+	Sensor   int          `json:"sensor"`
+	Min      int          `json:"min"`
+	Max      int          `json:"max"`
+	HasSteps bool         `json:"hasSteps"`
 	Steps    []curvesStep `json:"steps"`
-	Set      string   `json:"set"`
-	P        string   `json:"p"`
-	I        string   `json:"i"`
-	D        string   `json:"d"`
-	Type     string   `json:"type"`
-	Members  []int    `json:"members"`
+	Set      string       `json:"set"`
+	P        string       `json:"p"`
+	I        string       `json:"i"`
+	D        string       `json:"d"`
+	Type     string       `json:"type"`
+	Members  []int        `json:"members"`
 }
 type curvesSens struct {
 	Id  int    `json:"id"`
@@ -54,13 +57,13 @@ type curvesSens struct {
 	Err bool   `json:"err"`
 }
 type curvesEv struct {
-	Dt   int64    `json:"dt"` // ns the clock advances before this call
+	Dt   int64        `json:"dt"` // ns the clock advances before this call
 	Sens []curvesSens `json:"sens"`
 }
 type curvesIn struct {
 	Nodes []curvesNode `json:"nodes"` // curve id = index
-	Root  int      `json:"root"`
-	Evs   []curvesEv   `json:"evs"`   // curves: successive calls; curvesmono: consecutive pairs (2k, 2k+1)
+	Root  int          `json:"root"`
+	Evs   []curvesEv   `json:"evs"` // curves: successive calls; curvesmono: consecutive pairs (2k, 2k+1)
 }
 type curvesEvObs struct {
 	Kind  int   `json:"kind"` // 0 value, 1 error, 2 panic
@@ -113,6 +116,7 @@ func curvesBuild(ctx *Ctx, in curvesIn, caseNo int) (root curves.SpeedCurve, set
 			}
 		}
 	}
+	cfgs := make([]configuration.CurveConfig, 0, len(in.Nodes))
 	for i, n := range in.Nodes {
 		cfg := configuration.CurveConfig{ID: curvesId(i)}
 		switch n.Kind {
@@ -134,11 +138,28 @@ func curvesBuild(ctx *Ctx, in curvesIn, caseNo int) (root curves.SpeedCurve, set
 			}
 			cfg.Function = &configuration.FunctionCurveConfig{Type: n.Type, Curves: ids}
 		}
-		c, err := curves.NewSpeedCurve(cfg)
-		if err != nil {
-			panic(err)
+		cfgs = append(cfgs, cfg)
+	}
+	// The curves are instantiated by the real start-up glue (initializeCurves: NewSpeedCurve + RegisterSpeedCurve in
+	// configuration order). A configuration may list a function curve before or after its members, so the order is
+	// varied (as listed / reversed / rotated), as a function of the input alone so that a replay uses the same order.
+	switch (in.Root + len(in.Nodes)) % 3 {
+	case 1:
+		for a, b := 0, len(cfgs)-1; a < b; a, b = a+1, b-1 {
+			cfgs[a], cfgs[b] = cfgs[b], cfgs[a]
 		}
-		curves.RegisterSpeedCurve(c)
+	case 2:
+		k := (in.Root*7 + 3) % len(cfgs)
+		cfgs = append(append([]configuration.CurveConfig{}, cfgs[k:]...), cfgs[:k]...)
+	}
+	savedCurves := configuration.CurrentConfig.Curves
+	configuration.CurrentConfig.Curves = cfgs
+	reg := prometheus.NewRegistry()
+	prometheus.DefaultRegisterer, prometheus.DefaultGatherer = reg, reg
+	err := internal.VerifInitializeCurves()
+	configuration.CurrentConfig.Curves = savedCurves
+	if err != nil {
+		panic(err)
 	}
 	root, _ = curves.GetSpeedCurve(curvesId(in.Root))
 	set = func(s curvesSens) {
@@ -283,7 +304,7 @@ func curvesNewGen(rng *Rng, nSens int) *curvesGen {
 	return &curvesGen{rng: rng, nSens: nSens, tags: map[string]bool{}, bps: map[int][]int{}, pidSens: map[int]bool{}}
 }
 func (g *curvesGen) add(n curvesNode) int { g.nodes = append(g.nodes, n); return len(g.nodes) - 1 }
-func (g *curvesGen) tag(t string)     { g.tags[t] = true }
+func (g *curvesGen) tag(t string)         { g.tags[t] = true }
 func (g *curvesGen) tagList(extra ...string) []string {
 	var res []string
 	for t := range g.tags {
@@ -619,7 +640,7 @@ func init() {
 			obs, coq := curvesRun(ctx, in, caseNo, false)
 			k := in.Nodes[in.Root].Kind
 			for _, e := range obs.Evs {
-				tags = append(tags, "outcome="+[]string{"value", "error", "panic"}[e.Kind])
+				tags = append(tags, "outcome="+[]string{"value", "error", "panic", "concurrent-disagreement"}[e.Kind])
 				if e.Kind == 0 && (e.Val < 0 || e.Val > 255) {
 					tags = append(tags, "value-out-of-range")
 				}
